@@ -88,6 +88,7 @@ proof fn lemma_follow_shared(a: Seq<RegexNode>, i: int, p: bool, t: u32, h: u32)
         RegexNode::Or(ch) => {
             assert forall|k: int| 0 <= k < ch@.len() implies follows_code(a, (#[trigger] ch@[k]).0 as int, t, h) == follows(a, ch@[k].0 as int, t, h) by {
                 // a Star directly below an Or would violate star_shared (parent_ok == false)
+                assert(star_shared(a, ch@[k].0 as int, false));
                 lemma_follow_shared(a, ch@[k].0 as int, false, t, h);
             }
         }
